@@ -77,6 +77,76 @@ def check_promise_forms(ctx, fb, rule, cfg):
     return n
 
 
+class _AwaitEvWalker(lib_core.CoreWalker):
+    def on_edge(self, fn, ci, taken, st):
+        super().on_edge(fn, ci, taken, st)
+        neg = False
+        c = fn.sn(ci)
+        while c is not None and c['k'] == 'UnaryOperator' and c['op'] == '!':
+            neg = not neg
+            c = fn.sn(c['ch'][0])
+        if c is None:
+            return
+        names = [fn.nodes[j].get('cn', '') for j in fn.deep_descendants(c['i'])] + [c.get('cn', '')]
+        if any(x.split('::')[-1] == 'SubEqual' for x in names) and c['k'] != 'BinaryOperator':
+            st.events.append(('last', taken != neg))
+        elif any(x.split('::')[-1] == 'SubEqual' for x in names):
+            st.events.append(('last', None))
+
+
+def check_await_event(ctx, fb, rule):
+    """R-AWAITEVENT: the callback a multi-future Await registers (AwaitEvent<Sticky>::Impl) and the sticky single
+    awaiter: the coroutine is resumed exactly once, by the completion that brings the counter to zero and by no other;
+    the awaited futures are left alone (Await leaves them valid); the sticky forms resume by submitting the coroutine to
+    its executor."""
+    n = 0
+    for f in fb.fn.values():
+        if f.cfg is None:
+            continue
+        if f.clsq == 'yaclib::detail::AwaitEvent' and f.n == 'Impl':
+            sticky = f.cta and f.cta[0] in ('true', '1')
+            key = 'R-AWAITEVENT AwaitEvent<%s>::Impl' % ('sticky' if sticky else 'inline')
+            res = _AwaitEvWalker(fb).run(f)
+            ctx.instance(rule, key + ' :: ' + f.full[:100], dict(paths=len(res)))
+            n += 1
+            for st, _ in res:
+                ev = st.events
+                last = [e for e in ev if e[0] == 'last']
+                resumes = [e for e in ev if e[0] == 'call' and (
+                    e[1] == 'yaclib::IExecutor::Submit' or e[1].split('::')[-1] in ('Here', 'Step', 'Next', 'Call'))]
+                dec = [e for e in ev if e[0] == 'decref' or (e[0] == 'call' and e[1].split('::')[-1] == 'DecRef')]
+                if dec:
+                    ctx.report(rule, key, f.where, 'the event callback releases the awaited future: Await(fs...) must '
+                               'leave the futures valid for their owner', 'instantiation: ' + f.full[:300])
+                    break
+                if not last or last[-1][1] is None:
+                    ctx.report(rule, key, f.where, 'the resumption is not decided by the counter alone (SubEqual(1) '
+                               'combined with something else)', 'instantiation: ' + f.full[:300])
+                    break
+                if bool(resumes) != bool(last[-1][1]) or len(resumes) > 1:
+                    ctx.report(rule, key, f.where, 'the coroutine is resumed %d time(s) on a path on which this '
+                               'completion %s the last one: it must be resumed exactly once, by the completion that '
+                               'brings the counter to zero' % (len(resumes), 'is' if last[-1][1] else 'is not'),
+                               'instantiation: ' + f.full[:300])
+                    break
+                if sticky and resumes and resumes[0][1] != 'yaclib::IExecutor::Submit':
+                    ctx.report(rule, key, f.where, 'the sticky form resumes the coroutine through %s instead of '
+                               'submitting it to its executor' % resumes[0][1], 'instantiation: ' + f.full[:300])
+                    break
+        elif f.clsq == 'yaclib::detail::AwaitAwaiter' and f.n == 'Call' and len(f.cta) >= 2 and \
+                f.cta[1] in ('true', '1'):
+            key = 'R-AWAITEVENT AwaitAwaiter<sticky>::Call'
+            ctx.instance(rule, key + ' :: ' + f.full[:100], None)
+            n += 1
+            names = [c['cn'] for c in f.calls()]
+            if 'yaclib::IExecutor::Submit' not in names or any(
+                    x.split('::')[-1] in ('Call', 'resume', 'Here') and x != f.qn for x in names):
+                ctx.report(rule, key, f.where, 'AwaitSticky resumes the coroutine through %s instead of submitting it '
+                           'to its own executor' % [x.split('::')[-1] for x in names],
+                           'instantiation: ' + f.full[:300])
+    return n
+
+
 def run(ctx):
     fbs = ctx.facts(['K20', 'K20n', 'KF'], kinds=('probe', 'lib'), only=r'p_coro\.cpp$|src/algo|src/exe|src/lazy', tests=r'/test/',
                     quick_tests=r'unit/coro/(await|on|future_coro_traits)\.cpp')
@@ -99,10 +169,15 @@ def run(ctx):
                    'still receives the value', minimum=0)
     rpr = ctx.rule('R-PROMISE', 'initial_suspend suspends exactly the lazy kind; unhandled_exception stores '
                    'current_exception(); return_value stores its operand; value awaiters return Result::Ok()', minimum=12)
+    rae = ctx.rule('R-AWAITEVENT', 'multi-future Await: the coroutine is resumed exactly once, by the completion that '
+                   'brings the counter to zero; awaited futures are left alone; sticky forms resume through Submit',
+                   minimum=6)
     rl = ctx.rule('R-LOOPCALLER', 'Here() of a callback object that is not a BaseCore returns nullptr on every path (the '
                   'Loop would call the returned core with that object as its caller)', minimum=15)
     for cfg, fb in sorted(fbs.items()):
         ctx.guard(lambda: lib_core.check_loop_caller(ctx, fb, rl))
+        if (ctx.guard(lambda: check_await_event(ctx, fb, rae)) or 0) < 2:
+            ctx.guard(lambda: ctx.broken('R-AWAITEVENT: AwaitEvent::Impl not instantiated in %s' % cfg))
         if (ctx.guard(lambda: check_promise_forms(ctx, fb, rpr, cfg)) or 0) < 6:
             ctx.guard(lambda: ctx.broken('R-PROMISE: PromiseType members not instantiated in %s' % cfg))
         ctx.guard(lambda: lib_core.check_move_sites(ctx, fb, rmv, lambda f: '/coro/' in f.file))
